@@ -1,5 +1,6 @@
 import RustbusModel.Lemmas.RecvRun
 import RustbusModel.Lemmas.EndToEnd
+import RustbusModel.Lemmas.RecvHangup
 /-!
 C09 — Incoming bytes are reassembled into exactly the sent messages under any chunking.
 
@@ -312,6 +313,31 @@ theorem end_to_end (bo : ByteOrder) (ps : List (Ty × Val)) (b : Body.Body)
   have := marshal_decode m serial hr hs hrs hdr hm fs hf hok
   rw [this, hmb]
 
+/-- **The peer hangs up.** After ANY history of calls and arrivals (timeouts, short reads, raw `read_once`, a frame read
+    half-way), suppose everything the peer wrote has arrived in the socket (`w.rest.length ≤ w.avail`: it wrote whole frames
+    and closed, nothing more will come). Then the caller's blocking `get_next_message` calls - one per remaining frame,
+    each given POSITIVE kernel answers, as few as one byte per `recvmsg` - return exactly the remaining frames, in order,
+    each with its own descriptors: together with what was returned before, exactly the frames the peer wrote. Nothing is
+    left buffered, nothing unread: the hang-up is seen only by the `recvmsg` AFTER the last message (in the implementation
+    a 0-byte read, reported as `ConnectionClosed`; the model's stream simply ends there). -/
+theorem hangup_delivers_everything_written (frames : List Frame) (acts : List Action) (tr : List Res) (st : State)
+    (w : World) (hok : FramesOk p frames)
+    (h : run State.empty (World.init p frames) acts = (tr, st, w))
+    (hup : AllArrived w) (kss : List (List Nat)) (hen : Enough (frames.drop (msgs tr).length) kss) :
+    ∃ st' w', run State.empty (World.init p frames) (acts ++ drainCalls kss) =
+        (tr ++ (frames.drop (msgs tr).length).map (fun f => Res.msg f.bytes f.fds), st', w') ∧
+      msgs (tr ++ (frames.drop (msgs tr).length).map (fun f => Res.msg f.bytes f.fds)) = frames ∧
+      st'.buf = [] ∧ st'.fds = [] ∧ w'.rest = [] := by
+  obtain ⟨todo, hI, hok', ht, _⟩ := run_inv acts frames _ _ (inv_init frames) hok tr st w h
+  have hd' : frames.drop (msgs tr).length = todo := by rw [ht]; simp
+  rw [hd'] at hen ⊢
+  obtain ⟨st', w', hr, hI'⟩ := drain_all_arrived todo kss st w hI hok' hup hen
+  obtain ⟨hb, hf, hrest⟩ := nothing_left hI'
+  refine ⟨st', w', ?_, ?_, hb, hf, hrest⟩
+  · rw [run_append, h]
+    simp only [hr]
+  · rw [msgs_append, msgs_map_msg, ← ht]
+
 /-! ### non-vacuity -/
 
 -- the hypotheses of `end_to_end` are met by a concrete message: a signal with body (u32 7, "hi")
@@ -387,6 +413,27 @@ example : ((run State.empty (World.init exLate [exF2])
       [.arrive 21, .call .readOnce [.deliver 21], .call .readOnce [.deliver 21]]).2.1.fds) = ([], [7, 9]) := by
   decide +kernel
 
+/-- the second frame is 20 of 65 bytes in (its descriptors ride on byte 21) when the peer hangs up -/
+def exHalf : List Action :=
+  [.arrive 48, .call .getNext all, .arrive 20, .call .getNext all, .arrive 45]
+
+example : (run State.empty (World.init exLate [exF1, exF2]) exHalf).1 = [.msg exF1.bytes [], .timedOut] ∧
+    AllArrived (run State.empty (World.init exLate [exF1, exF2]) exHalf).2.2 ∧
+    (run State.empty (World.init exLate [exF1, exF2]) exHalf).2.1.buf.length = 20 := by
+  refine ⟨by decide +kernel, ?_, by decide +kernel⟩
+  unfold AllArrived; decide +kernel
+
+def exAnswers : List Nat := 1 :: 2 :: 1 :: List.replicate 62 1000
+
+example : Enough ([exF1, exF2].drop 1) [exAnswers] := by
+  refine ⟨?_, by decide +kernel, trivial⟩
+  intro k hk
+  simp only [exAnswers, List.mem_cons, List.mem_replicate] at hk
+  omega
+
+example : (run State.empty (World.init exLate [exF1, exF2]) (exHalf ++ drainCalls [exAnswers])).1 =
+    [.msg exF1.bytes [], .timedOut, .msg exF2.bytes [7, 9]] := by decide +kernel
+
 /-- The history that used to break reassembly: both frames queued, `read_once` three times, then two
     `get_next_message`. The third `read_once` finds a complete buffer: it returns `Ok(())` and reads nothing,
     and the second message is returned WITH its descriptors 7 and 9. -/
@@ -445,3 +492,4 @@ end Rustbus.Recv
 #print axioms Rustbus.Recv.refused_announcement_reads_nothing
 #print axioms Rustbus.Recv.read_once_on_complete_buffer_keeps_descriptors
 #print axioms Rustbus.Recv.end_to_end
+#print axioms Rustbus.Recv.hangup_delivers_everything_written
